@@ -13,11 +13,11 @@ import (
 // C09: downstream failures are contained and reported, never masked.
 
 // failure signals: the answer itself says "this failed" => errors must be non-empty
-var c09Signals = []string{"transport", "status500", "notjson", "object", "short", "long", "empty", "errors1", "errors2", "datanull", "nodata",
+var c09Signals = []string{"transport", "status500", "status500-validbody", "notjson", "object", "short", "long", "empty", "errors1", "errors2", "datanull", "nodata",
 	"nonode", "nodestring", "nodelist", "nodenumber"}
 
 // shape faults: values whose shape contradicts the schema => contained, nothing invented
-var c09Shapes = []string{"entry-scalar", "entry-null", "obj-scalar", "obj-list", "list-object", "no-id", "foreign-id", "field-null"}
+var c09Shapes = []string{"entry-scalar", "entry-null", "obj-scalar", "obj-list", "obj-empty-list", "list-object", "list-null", "no-id", "foreign-id", "field-null"}
 
 func isSignal(k string) bool {
 	for _, s := range c09Signals {
@@ -91,9 +91,9 @@ func init() {
 	Props["C09"] = &Prop{
 		ID:    "C09",
 		Level: "fault_enumeration",
-		Rule: "case = (world, operation with <=K fields, fault kind, position = (index of the downstream HTTP call in the execution, index inside that call's batch)); fault alphabet: 15 failure signals " +
-			"(transport error, status 500, non-JSON body, object instead of array, array short/long/empty, errors x1/x2, data null, no data, node missing/string/list/number) and 8 schema-contradicting shapes " +
-			"(list entry scalar/null, scalar or list for object, object for list, entity without id, foreign id, null scalar); thorough adds ordered pairs of faults; oracle: process alive, handler returned, " +
+		Rule: "case = (world, operation with <=K fields, fault kind, position = (index of the downstream HTTP call in the execution, index inside that call's batch)); fault alphabet: 16 failure signals " +
+			"(transport error, status 500 with an error body and with a well-formed answer as body, non-JSON body, object instead of array, array short/long/empty, errors x1/x2, data null, no data, node missing/string/list/number) and 10 schema-contradicting shapes " +
+			"(list entry scalar/null, scalar, list or empty list for object, object or null for list, entity without id, foreign id, null scalar); thorough adds ordered pairs of faults; oracle: process alive, handler returned, " +
 			"well-formed envelope, failure signals => errors non-empty, no value in data that no service returned, and a follow-up request on the same gateway equals its reference; non-trivial = the fault hit a sub-request",
 		Assumptions: []string{"single faults (thorough: pairs) on the in-memory transport; operations through the root node() entry point are excluded (C01 finding)",
 			"hangs are decided on Engine B; here a watchdog would only report a suspected hang"},
@@ -140,7 +140,7 @@ func init() {
 				for ci, hc := range calls {
 					for pos := 0; pos < hc.Size; pos++ {
 						for _, kind := range kindsAll {
-							if pos > 0 && (kind == "transport" || kind == "status500" || kind == "notjson" || kind == "object" || kind == "short" || kind == "long" || kind == "empty") {
+							if pos > 0 && (kind == "transport" || kind == "status500" || kind == "status500-validbody" || kind == "notjson" || kind == "object" || kind == "short" || kind == "long" || kind == "empty") {
 								continue // call-level faults do not depend on the position
 							}
 							plans = append(plans, []fpos{{ci, pos, kind}})
